@@ -407,6 +407,14 @@ class ServerBase:
                 self.handle_disconnect(outgoing[0])
                 _logger.warning('Connection reset while sending message.')
                 continue
+            except OSError:
+                # The connection was closed by the main thread after the
+                # check above, or the peer is gone (e.g. broken pipe). In
+                # the latter case the main thread handles the disconnect
+                # when it next reads from the connection; this thread
+                # must keep serving the other connections.
+                _logger.warning('Unable to send message on connection.')
+                continue
 
             if _logger.isEnabledFor(logging.DEBUG):
                 to = self.get_to_string(outgoing[0])
